@@ -65,3 +65,8 @@ Definition flag_tables (kind : N) : list N * list N :=
 Definition access_back (kind v : N) : N :=
   let t := flag_tables kind in flags_to (snd t) (flags_from (fst t) v).
 Definition mask_of (bits : list N) : N := fold_right N.lor 0 bits.
+
+(* ---- class file header: magic and version gate of [read] ---- *)
+Definition version_le (M m M' m' : N) : bool := (M <? M') || ((M =? M') && (m <=? m')).
+Definition header_ok (mg minor major : N) : bool :=
+  (mg =? magic) && version_le major minor max_version_major max_version_minor.
